@@ -85,9 +85,12 @@ func handleSet(params internal.HandlerFuncParams) ([]byte, error) {
 		return nil, err
 	}
 
-	// If expiresAt is set, set the key's expiry time as well
+	// If expiresAt is set, set the key's expiry time as well.
+	// Otherwise the new value replaces the old one together with its deadline.
 	if options.expireAt != nil {
 		params.SetExpiry(params.Context, key, options.expireAt.(time.Time), false)
+	} else if keyExists && params.GetExpiry(params.Context, key) != (time.Time{}) {
+		params.SetExpiry(params.Context, key, time.Time{}, false)
 	}
 
 	return res, nil
@@ -111,6 +114,13 @@ func handleMSet(params internal.HandlerFuncParams) ([]byte, error) {
 	// Set all the values
 	if err = params.SetValues(params.Context, entries); err != nil {
 		return nil, err
+	}
+
+	// The new values replace the old ones together with their deadlines.
+	for key := range entries {
+		if params.GetExpiry(params.Context, key) != (time.Time{}) {
+			params.SetExpiry(params.Context, key, time.Time{}, false)
+		}
 	}
 
 	return []byte(constants.OkResponse), nil
